@@ -198,6 +198,10 @@ def run_lines(exe, lines, timeout=600, chunks=None):
     from concurrent.futures import ThreadPoolExecutor
     if not lines:
         return []
+    if os.environ.get("HY_EFFECTIVE_TIER") == "quick":
+        # the quick tier's streams take seconds; an operation that never returns (a change that makes a loop endless) is
+        # reported after minutes, not after the generous limits of the thorough tier
+        timeout = min(timeout, 240)
     n = chunks or min(NCPU, max(1, len(lines) // 50))
     size = (len(lines) + n - 1) // n
     parts = [lines[i:i + size] for i in range(0, len(lines), size)]
